@@ -7,6 +7,7 @@ import (
 	"fmt"
 	"os"
 	"path/filepath"
+	"strings"
 	"testing"
 
 	"github.com/mk6i/mkdb/storage"
@@ -31,6 +32,9 @@ type c02Case struct {
 	Segments   []c02Segment `json:"segments"`
 	ImageEvery int          `json:"image_every"`       // crash image after every n-th statement of segment 0 (1 = every)
 	Preload    int          `json:"preload,omitempty"` // leading statements of segment 0 after which no image is taken (bulk load)
+	// SmallRecover > 0: every image is first recovered, on a copy, by a start-up recovery whose own page cache
+	// holds only that many pages (hook VerifInitCacheSize) - the recovery of a database much larger than the cache
+	SmallRecover int `json:"small_recover,omitempty"`
 }
 
 // c02Deep builds the start of a "deep tree" case: one table loaded with enough
@@ -103,6 +107,9 @@ func c02Gen(rt *rapid.T) c02Case {
 	burst := nseg >= 2 && rapid.IntRange(0, 2).Draw(rt, "ddlburst") == 0
 	var c c02Case
 	c.ImageEvery = 1
+	if rapid.IntRange(0, 2).Draw(rt, "smallrecover") == 0 {
+		c.SmallRecover = rapid.SampledFrom([]int{8, 12, 16, 24, 48, 96}).Draw(rt, "recovercache")
+	}
 	for si := 0; si < nseg; si++ {
 		cfg := gen.HistCfg{
 			MinStmts: 2, MaxStmts: 22, MaxTables: 3, MaxCols: 4, Direct: true,
@@ -184,7 +191,61 @@ func c02Gen(rt *rapid.T) c02Case {
 // recoverAndCompare starts a process on dir (running recovery), compares every
 // table with the model, then crashes it and recovers a second time: nothing
 // may change. It returns the still running engine of the second start.
+// smallRecover, when positive, makes recoverAndCompare first recover a copy of the directory with a
+// recovery-time page cache of that many pages. Replay re-dirties only the pages whose changes had not been
+// flushed; when those alone do not fit the cache, recovery may stop with the documented 'cache is full'
+// error, which is counted and not judged.
+var smallRecover int
+var smallRecoverStats *vlib.Stats
+
+func recoverSmall(dir string, m *model.DB, tr *IDTracker, what string) string {
+	cp := filepath.Join(WorkDir, "c02-smallrecover")
+	os.RemoveAll(cp)
+	defer os.RemoveAll(cp)
+	if err := mk.CopyDataDir(dir, cp); err != nil {
+		return "image copy failed: " + err.Error()
+	}
+	// Replay never evicts what it re-dirtied, and recovery ends with one flush: the number of pages that
+	// flush writes is the largest number of dirty pages the recovery ever held. Only when that stayed
+	// below the capacity was the cache never full of dirty pages - the precondition under which a small
+	// cache may not matter (mkdb does not survive an overflow of its cache inside an operation, which is
+	// outside every listed property; C16 words the precondition).
+	written := 0
+	storage.VerifHook = func(point string, arg uint64) {
+		if point == "page.write" {
+			written++
+		}
+	}
+	storage.VerifInitCacheSize = smallRecover
+	eng, err := mk.Start(cp)
+	storage.VerifInitCacheSize = 0
+	storage.VerifHook = nil
+	if eng != nil {
+		defer eng.Crash(false)
+	}
+	if (err != nil && strings.Contains(err.Error(), "cache is full")) || written > smallRecover-2 {
+		smallRecoverStats.Label("small-cache-recovery-not-judged(unflushed pages fill the cache)", 1)
+		return ""
+	}
+	if err != nil {
+		return fmt.Sprintf("%s: recovery with a page cache of %d pages failed: %v", what, smallRecover, err)
+	}
+	if err := eng.Exec("USE " + DBName); err != nil {
+		return fmt.Sprintf("%s: USE after a recovery with a page cache of %d pages failed: %v", what, smallRecover, err)
+	}
+	if msg := CompareAll(eng, m, tr); msg != "" {
+		return fmt.Sprintf("%s: after a recovery with a page cache of %d pages: %s", what, smallRecover, msg)
+	}
+	smallRecoverStats.Label("small-cache-recovery-compared", 1)
+	return ""
+}
+
 func recoverAndCompare(dir string, m *model.DB, tr *IDTracker, what string) (*mk.Engine, string) {
+	if smallRecover > 0 {
+		if msg := recoverSmall(dir, m, tr, what); msg != "" {
+			return nil, msg
+		}
+	}
 	for round := 1; round <= 2; round++ {
 		eng, err := mk.Start(dir)
 		if err != nil {
@@ -207,6 +268,8 @@ func recoverAndCompare(dir string, m *model.DB, tr *IDTracker, what string) (*mk
 
 func c02Run(c c02Case, st *vlib.Stats) string {
 	b, _ := json.Marshal(c)
+	smallRecover, smallRecoverStats = c.SmallRecover, st
+	defer func() { smallRecover = 0 }()
 	dir := CaseDir("c02")
 	imgDir := filepath.Join(WorkDir, "c02-img")
 	defer os.RemoveAll(imgDir)
